@@ -48,6 +48,8 @@ type psEval struct {
 	undecide string
 	steps    int
 	headers  map[*ssa.BasicBlock]bool
+	busy     map[*ssa.Function]bool
+	reflFns  map[*ssa.Function]bool // helpers found reflexive while recursing
 }
 
 var psSymmetricExternal = map[string]bool{"strings.EqualFold": true, "bytes.Equal": true, "bytes.EqualFold": true}
@@ -241,6 +243,31 @@ func (e *psEval) walk(b, prev *ssa.BasicBlock, from int, env map[ssa.Value]psVal
 					full = cal.Object().Pkg().Path() + "." + cal.Name()
 				}
 				symmetric = psSymmetricExternal[full] || e.symCalls[cal]
+				if !symmetric && e.w.InPkg(cal) && cal.Blocks != nil && len(cal.Params) >= 2 && cal != e.f && isBoolType(x.Type()) && !e.busy[cal] {
+					// a package helper that relates the two operands (queriesEqual(a.Query(), b.Query()), pathsEqual(…)):
+					// it is a symmetric relation iff its own decision tree is symmetric in its first two parameters
+					if e.busy == nil {
+						e.busy = map[*ssa.Function]bool{}
+					}
+					e.busy[cal] = true
+					if e.reflFns == nil {
+						e.reflFns = map[*ssa.Function]bool{}
+					}
+					sub := &psEval{w: e.w, f: cal, symCalls: e.symCalls, busy: e.busy, reflFns: e.reflFns}
+					sub.run()
+					delete(e.busy, cal)
+					if sub.undecide == "" && leavesSymmetric(sub.leaves) {
+						e.symCalls[cal] = true
+						symmetric = true
+						names := map[string]bool{"==": true, "EqualFold": true, "Equal": true}
+						for g := range e.reflFns {
+							names[funcName(g)] = true
+						}
+						if ok, _ := leavesReflexive(sub.leaves, names); ok {
+							e.reflFns[cal] = true
+						}
+					}
+				}
 			default:
 				if bi, ok := cc.Value.(*ssa.Builtin); ok {
 					name = "builtin " + bi.Name()
@@ -492,6 +519,9 @@ func checkPairPredicate(w *World, f *ssa.Function, symCalls, reflCalls map[*ssa.
 		return a
 	}
 	sym = true
+	if ev.symCalls == nil {
+		ev.symCalls = map[*ssa.Function]bool{}
+	}
 	for i, l1 := range ev.leaves {
 		for j, l2 := range ev.leaves {
 			if j < i {
@@ -517,44 +547,10 @@ func checkPairPredicate(w *World, f *ssa.Function, symCalls, reflCalls map[*ssa.
 			}
 		}
 	}
-	refl = true
-	for _, l := range ev.leaves {
-		// both operands are the same value
-		merged := map[string]bool{}
-		feasible := true
-		for a, v := range l.sigma {
-			switch {
-			case a.param == 0 || a.param == 1:
-				if old, ok := merged[a.key]; ok && old != v {
-					feasible = false
-				}
-				merged[a.key] = v
-			case a.param == -1:
-				// symmetric relation of an expression with itself: decided when the relation is known to be reflexive
-				op := a.key
-				if i := strings.IndexAny(op, "(["); i >= 0 {
-					op = op[:i]
-				}
-				switch {
-				case op == "!=":
-					if v {
-						feasible = false
-					}
-				case reflNames[op]:
-					if !v {
-						feasible = false
-					}
-				}
-			}
-		}
-		if !feasible {
-			continue
-		}
-		if l.result != "true" && l.result != "LOOP" && refl {
-			refl = false
-			reflWitness = fmt.Sprintf("for a == b with %s the path ending at %s returns %s", fmtPS(l.sigma), l.pos, l.result)
-		}
+	for g := range ev.reflFns {
+		reflNames[funcName(g)] = true
 	}
+	refl, reflWitness = leavesReflexive(ev.leaves, reflNames)
 	return sym, refl, symWitness, reflWitness, "", len(ev.leaves)
 }
 
@@ -576,4 +572,77 @@ func eqOtherConst(sigma map[psAtom]bool, ak psAtom) bool {
 		}
 	}
 	return false
+}
+
+// leavesSymmetric: every pair of leaves that is consistent after exchanging the operand roles returns the same result.
+func leavesSymmetric(leaves []psLeaf) bool {
+	swap := func(a psAtom) psAtom {
+		switch a.param {
+		case 0:
+			a.param = 1
+		case 1:
+			a.param = 0
+		}
+		return a
+	}
+	for i, l1 := range leaves {
+		for j, l2 := range leaves {
+			if j < i {
+				continue
+			}
+			consistent := true
+			comb := clonePS(l1.sigma)
+			for a, v := range l2.sigma {
+				sa := swap(a)
+				if old, ok := comb[sa]; ok && old != v {
+					consistent = false
+					break
+				}
+				comb[sa] = v
+			}
+			if consistent && l1.result != l2.result {
+				return false
+			}
+		}
+	}
+	return true
+}
+
+// leavesReflexive: every leaf that is consistent with both operands being the same value returns true (or LOOP).
+func leavesReflexive(leaves []psLeaf, reflNames map[string]bool) (bool, string) {
+	for _, l := range leaves {
+		merged := map[string]bool{}
+		feasible := true
+		for a, v := range l.sigma {
+			switch {
+			case a.param == 0 || a.param == 1:
+				if old, ok := merged[a.key]; ok && old != v {
+					feasible = false
+				}
+				merged[a.key] = v
+			case a.param == -1:
+				op := a.key
+				if i := strings.IndexAny(op, "(["); i >= 0 {
+					op = op[:i]
+				}
+				switch {
+				case op == "!=":
+					if v {
+						feasible = false
+					}
+				case reflNames[op]:
+					if !v {
+						feasible = false
+					}
+				}
+			}
+		}
+		if !feasible {
+			continue
+		}
+		if l.result != "true" && l.result != "LOOP" {
+			return false, fmt.Sprintf("for a == b with %s the path ending at %s returns %s", fmtPS(l.sigma), l.pos, l.result)
+		}
+	}
+	return true, ""
 }
